@@ -116,9 +116,9 @@ func hailItemBody(name string, updatesOnly bool) func() {
 	}
 }
 
-// bareUpdates: every unary Update* RPC of every model server / memory device in the tree, called through the
-// wrapper with a request that names the device and nothing else (the resource message left out - legal on the
-// wire): whatever the answer, it is an answer, not a panic on the wrapper's goroutine.
+// bareUpdates: every unary RPC of every model server / memory device in the tree (Update*, Create*, Get*, ...),
+// called through the wrapper with a request that names the device and nothing else (resource messages left out -
+// legal on the wire): whatever the answer, it is an answer, not a panic on the wrapper's goroutine.
 func bareUpdates(s *hx.Seq) {
 	type rcase struct{ Server, Method string }
 	run := func(c rcase) {
@@ -173,7 +173,7 @@ func bareUpdates(s *hx.Seq) {
 			ms := sd.(protoreflect.ServiceDescriptor).Methods()
 			for j := 0; j < ms.Len(); j++ {
 				m := ms.Get(j)
-				if !strings.HasPrefix(string(m.Name()), "Update") || m.IsStreamingClient() || m.IsStreamingServer() || m.Input().Fields().ByName("name") == nil {
+				if m.IsStreamingClient() || m.IsStreamingServer() || m.Input().Fields().ByName("name") == nil {
 					continue
 				}
 				c := rcase{se.Pkg + "." + se.Name, string(m.Name())}
@@ -184,7 +184,7 @@ func bareUpdates(s *hx.Seq) {
 			}
 		}
 	}
-	s.Note("%d Update RPCs called without their resource message", n)
+	s.Note("%d unary RPCs called with a request that names the device and nothing else", n)
 }
 
 // One execution each, under the default schedule with exact quiescence between the client's steps (the
